@@ -324,6 +324,12 @@ func (sc *scenario) stop() {
 func (sc *scenario) doOp(pusher int, rng *rand.Rand, delBias int) *pushRec {
 	ids := sc.ids[pusher]
 	sid := ids[rng.IntN(len(ids))]
+	return sc.doOpOn(pusher, rng, sid, "", delBias)
+}
+
+// doOpOn performs one valid change of session sid on the active: an add if the session does not
+// exist; otherwise a delete if kind is "delete" (or kind is "" and the delBias draw says so), else an update.
+func (sc *scenario) doOpOn(pusher int, rng *rand.Rand, sid, kind string, delBias int) *pushRec {
 	sc.mu.Lock()
 	cur, present := sc.model[sid]
 	sc.nextOp++
@@ -334,7 +340,7 @@ func (sc *scenario) doOp(pusher int, rng *rand.Rand, delBias int) *pushRec {
 	case !present:
 		typ, s = ha.SyncTypeAdd, newSession(sid, op, rng)
 		sc.model[sid] = s
-	case rng.IntN(100) < delBias:
+	case kind == "delete" || kind == "" && rng.IntN(100) < delBias:
 		typ, s = ha.SyncTypeDelete, cur
 		s.BytesIn = op
 		delete(sc.model, sid)
@@ -1213,6 +1219,11 @@ func TestLayerB(t *testing.T) {
 // spawnChildren runs the scenarios 0..n-1 of one end-to-end layer in nChildren child processes
 // (this test binary re-executed with -test.run ^testName$) and merges what they observed.
 func spawnChildren(t *testing.T, testName, layer string, n, nChildren int) {
+	spawnChildrenAs(t, testName, layer, n, nChildren, "ha.HASyncer (active+standby over loopback)")
+}
+
+// spawnChildrenAs: comp is the component a process-fatal error of a child is attributed to.
+func spawnChildrenAs(t *testing.T, testName, layer string, n, nChildren int, comp string) {
 	tmp, err := os.MkdirTemp("", "c13"+layer)
 	if err != nil {
 		t.Fatal(err)
@@ -1255,7 +1266,7 @@ func spawnChildren(t *testing.T, testName, layer string, n, nChildren int) {
 					if end > len(lines) {
 						end = len(lines)
 					}
-					violation(0, "ha.HASyncer (active+standby over loopback)", "no-process-fatal-error", cls,
+					violation(0, comp, "no-process-fatal-error", cls,
 						fmt.Sprintf("the end-to-end push/reconnect workload (layer %s scenarios %d..%d) killed the process: %s", layer, lo, hi-1, strings.TrimSpace(l)), lines[i:end])
 					return
 				}
